@@ -158,7 +158,7 @@ def cases(draw, gamma=False):
         cs["n_samples"] = draw(st.integers(1, 4))
         cs["seed"] = draw(st.integers(0, 2 ** 31 - 1))
     else:
-        cs = draw(gen.continuum_and_spec(min_ann=2, max_ann=5, budget=8000, max_per=60, unlabelled_ratio=0.1))
+        cs = draw(gen.continuum_and_spec(min_ann=2, max_ann=5, budget=8000, max_per=60, unlabelled_ratio=0.25))
     cs["rename"] = draw(st.sampled_from(["reverse", "preserve", "arbitrary"]))
     cs["perm"] = draw(st.integers(0, 10 ** 6))
     cs["shift"] = draw(st.integers(-4000, 20000).filter(lambda k: k != 0).map(lambda k: k / 4))
